@@ -28,7 +28,9 @@ ASSUMPTIONS = [
 REAL = REAL_ALL
 STUB = STUB_ALL + ["builtins.open / os.rename,replace,remove,mkdir,makedirs / shutil.copy*,move,rmtree during an add_iofault op: the k-th call naming a path inside the named-files area raises EIO before doing anything (verifsim/iofault.py)", "shutil.copy/copy2/copyfile and open(..., 'w'/'a') inside the named-files area during an add_torn op: a prefix of the bytes is stored and ENOSPC raised (disk-full fault)"]
 
-SOURCES = ["d0/a.csv", "d1/a.csv", "d0/b.csv", "d1/c.txt", "d1/r.2024-03.csv"]
+# (the last one is a file name that is not valid UTF-8 on disk - b"f\xe9vrier.csv", as written by a Latin-1 system; Python
+# hands it around with a lone surrogate)
+SOURCES = ["d0/a.csv", "d1/a.csv", "d0/b.csv", "d1/c.txt", "d1/r.2024-03.csv", "d0/f\udce9vrier.csv"]
 NAMES = ["n0", "n1"]
 
 
@@ -41,7 +43,9 @@ def generate(rng, i, tier):
     n = rng.randint(9, 25) if long else rng.randint(3, 8)
     weights = {"write": rng.choice([2, 3, 4]), "add": rng.choice([3, 4, 6]), "remove": rng.choice([0, 1, 1, 2]), "restart": rng.choice([0, 1, 2]), "add_bad": rng.choice([0, 0, 1]), "add_torn": rng.choice([0, 1, 1]), "bulk": rng.choice([0, 0, 1]), "add_iofault": rng.choice([0, 1, 1, 2])}
     kinds = [k for k, w in weights.items() for _ in range(w)]
-    srcs = rng.sample(SOURCES, rng.randint(2, 5))
+    srcs = rng.sample(SOURCES[:5], rng.randint(2, 5))
+    if rng.random() < 0.12:
+        srcs[rng.randrange(len(srcs))] = SOURCES[5]
     opsl = []
     fresh = 0
     # always start with something registrable
@@ -490,6 +494,7 @@ def execute(sc):
             if out.violations:
                 break
         out.probe("identical re-add", False)
+        out.probe("source file name that is not valid UTF-8", any(op.get("src") == SOURCES[5] and op["op"].startswith("add") for op in sc["ops"]))
         out.probe("re-add of old bytes", False)
         out.probe("registration retried after a torn copy", False)
         out.probe("source rewritten between a torn copy and its retry", False)
